@@ -63,6 +63,7 @@ def check_pair(ctx, c, P, Q, rp, rq, hp=None, hq=None, enum=False):
     case = {"kind": "pair", "c": list(c), "P": P and list(P), "Q": Q and list(Q), "rp": rp, "rq": rq,
             "hp": hp and list(hp), "hq": hq and list(hq)}
     rc = REPCLASS[rp if P is not None else "INF"] + "+" + REPCLASS[rq if Q is not None else "INF"]
+    ctx.case_sample(case)
 
     legacy_only = all(r in ("legacy", "inf") for r in rc.split("+"))
 
